@@ -77,10 +77,10 @@ func (s *Sx) Has(op, name string) bool {
 }
 
 type symxer struct {
-	p       *Prog
-	depth   int
-	memo    map[ssa.Value]*Sx
-	busy    map[ssa.Value]bool
+	p     *Prog
+	depth int
+	memo  map[ssa.Value]*Sx
+	busy  map[ssa.Value]bool
 	// Unwrap interface boxing/conversions between identical underlying types
 	keepConv bool
 	// loadVal: for a load resolved to exactly one reaching store, the stored value
@@ -285,7 +285,6 @@ func (sx *symxer) of1(v ssa.Value, d int) *Sx {
 	}
 	return &Sx{Op: "opaque", Name: fmt.Sprintf("%T:%s", v, v.Name())}
 }
-
 
 func (sx *symxer) call(c *ssa.CallCommon, d int) *Sx {
 	var args []*Sx
